@@ -846,7 +846,7 @@ class _Prop:
         "rejections; keys spelled as name, dotted string, tuple or chained lookups; stepped in lock-step with a "
         "dictionary reference model, invariants I1-I8 after every step. A run is non-trivial when at least two "
         "operations took effect or were rejected; distinct = distinct (operation/API/outcome trace, identity-free "
-        "end-state shape) pairs, counted with a set of 64-bit hashes."
+        "end-state shape) pairs, counted with a set of 64-bit hashes. Swarm options add classes with bases (inheritance seen by the consumer API), members constructed with parent= preset, and lookups that pass through resolved aliases."
     )
     COMPONENTS = {
         "real": ["_griffe.mixins (Get/Set/DelMembersMixin, _get_parts)", "_griffe.models (Object, Module, Class, Function, Attribute, Alias)", "_griffe.collections.ModulesCollection", "_griffe.merger (reached via set_member on modules)"],
